@@ -111,7 +111,7 @@ theorem single_fork_full_false : ¬ single_fork_full := by
 
 open MdkVerif.Fork MdkVerif.Props.C01Fork in
 theorem single_fork_bystander (c : Cl) (S : List Ev) (l : List Ev) (nx : Nat)
-    (hg : c.hasGroup = true) (hr : 1 ≤ c.retention) (hsec : SecretsOK c.g) (hm : NoForkSnapshot c)
+    (hg : c.hasGroup = true) (ha : c.g.active = true) (hr : 1 ≤ c.retention) (hsec : SecretsOK c.g) (hm : NoForkSnapshot c)
     (hn : c.g.recNid = c.g.nid)
     (hS : Siblings c S) (hl : ∀ e ∈ l, e ∈ S) (hne : l ≠ []) :
     ∃ w ∈ l, (∀ e ∈ l, e = w ∨ klt (key w) (key e) = true) ∧
@@ -119,11 +119,11 @@ theorem single_fork_bystander (c : Cl) (S : List Ev) (l : List Ev) (nx : Nat)
       wc (l.foldl (fun c e => (deliver c e nx).1) c).g [] = wc (childG c w) [] ∧
       (getRec (l.foldl (fun c e => (deliver c e nx).1) c) w.n).map (·.state) = some 2 ∧
       ∀ e ∈ l, e ≠ w → ∃ r, getRec (l.foldl (fun c e => (deliver c e nx).1) c) e.n = some r ∧ (r.state = 3 ∨ r.state = 4) :=
-  C01Fork.single_fork_bystander c S l nx hg hr hsec hm hn hS hl hne
+  C01Fork.single_fork_bystander c S l nx hg ha hr hsec hm hn hS hl hne
 
 open MdkVerif.Fork MdkVerif.Props.C01Fork in
 theorem single_fork_committer (c : Cl) (o : Ev) (S : List Ev) (l : List Ev) (nx : Nat)
-    (hg : c.hasGroup = true) (hr : 1 ≤ c.retention) (hsec : SecretsOK c.g) (hm : NoForkSnapshot c)
+    (hg : c.hasGroup = true) (ha : c.g.active = true) (hr : 1 ≤ c.retention) (hsec : SecretsOK c.g) (hm : NoForkSnapshot c)
     (hn : c.g.recNid = c.g.nid)
     (ho : OwnCommit c o) (hS : Siblings c S)
     (hd : ∀ e ∈ S, e.n ≠ o.n ∧ (e.ts, e.idnum) ≠ (o.ts, o.idnum))
@@ -134,7 +134,7 @@ theorem single_fork_committer (c : Cl) (o : Ev) (S : List Ev) (l : List Ev) (nx 
       (l.foldl (fun c e => (deliver c e nx).1) c).g.pending = none ∧
       (getRec (l.foldl (fun c e => (deliver c e nx).1) c) w.n).map (·.state) = some 2 ∧
       ∀ e ∈ l, e ≠ w → e ≠ o → ∃ r, getRec (l.foldl (fun c e => (deliver c e nx).1) c) e.n = some r ∧ (r.state = 3 ∨ r.state = 4) :=
-  C01Fork.single_fork_committer c o S l nx hg hr hsec hm hn ho hS hd hl hne
+  C01Fork.single_fork_committer c o S l nx hg ha hr hsec hm hn ho hS hd hl hne
 
 /-- DESIGN's `secrets_follow_path` (and "no snapshot of the current epoch"): invariants of every history -/
 theorem secrets_follow_path (id : Nat) (p : Bool) (r : Nat) (ms as : List Nat) (name : Nat) (ops : List C08.COp) :
@@ -147,27 +147,31 @@ open MdkVerif.Fork MdkVerif.Props.C01Fork in
 /-- staging + publishing a commit establishes the committer theorem's hypotheses -/
 theorem stage_own_commit (c : Cl) (n ts idn : Nat) (b : Body) (na : Bool) (o : Ev)
     (hts : ts ≠ 0) (hsec : SecretsOK c.g) (hm : NoForkSnapshot c)
-    (hk : ∀ d, b = .setData d → d.nid = c.g.recNid)
+    (hk : ∀ d, b = .setData d → d.nid = c.g.recNid) (hme : removesMe c.id b c.g.props = false)
     (h : (stageCommit c n ts idn b na).2 = .ev o) :
     OwnCommit (stageCommit c n ts idn b na).1 o ∧ SecretsOK (stageCommit c n ts idn b na).1.g ∧
     NoForkSnapshot (stageCommit c n ts idn b na).1 ∧ (stageCommit c n ts idn b na).1.g.path = c.g.path ∧
     (stageCommit c n ts idn b na).1.g.recNid = c.g.recNid ∧ (stageCommit c n ts idn b na).1.g.nid = c.g.nid :=
-  C01Fork.stage_own_commit c n ts idn b na o hts hsec hm hk h
+  C01Fork.stage_own_commit c n ts idn b na o hts hsec hm hk hme h
 
 open MdkVerif.Fork MdkVerif.Props.C01Fork in
 /-- the bystander theorem for every client state reachable by any history of API calls -/
 theorem single_fork_reachable (id : Nat) (p : Bool) (r : Nat) (ms as : List Nat) (name : Nat) (ops : List C08.COp)
     (S l : List Ev) (nx : Nat)
     (hg : (ops.foldl C08.cstep (initCl id p r ms as name)).hasGroup = true)
+    (ha : (ops.foldl C08.cstep (initCl id p r ms as name)).g.active = true)
     (hr : 1 ≤ (ops.foldl C08.cstep (initCl id p r ms as name)).retention)
     (hS : Siblings (ops.foldl C08.cstep (initCl id p r ms as name)) S) (hl : ∀ e ∈ l, e ∈ S) (hne : l ≠ []) :
     ∃ w ∈ l, (∀ e ∈ l, e = w ∨ klt (key w) (key e) = true) ∧
       (l.foldl (fun c e => (deliver c e nx).1) (ops.foldl C08.cstep (initCl id p r ms as name))).g.path =
         (ops.foldl C08.cstep (initCl id p r ms as name)).g.path ++ [w.cipher] :=
-  C01Fork.single_fork_reachable id p r ms as name ops S l nx hg hr hS hl hne
+  C01Fork.single_fork_reachable id p r ms as name ops S l nx hg ha hr hS hl hne
 
 /-- the excluded sibling of the bystander theorem: one that rotates the nostr group id (`h-rotation-in-flight`) -/
 theorem single_fork_needs_fixed_id : ¬ C01Fork.single_fork_any_id_full := C01Fork.single_fork_any_id_full_false
+
+/-- the excluded sibling of the bystander theorem: one that removes the receiver (`evicted-by-losing-commit`) -/
+theorem single_fork_needs_membership : ¬ C01Fork.single_fork_any_target_full := C01Fork.single_fork_any_target_full_false
 
 /-- the excluded configuration of the bystander theorem: retention 0 -/
 theorem single_fork_needs_retention : ¬ C01Fork.single_fork_bystander_full := C01Fork.single_fork_bystander_full_false
